@@ -96,6 +96,28 @@ pub fn observe_history<S: AsRef<[u8]>>(docs: &[S]) -> String {
     }
 }
 
+/// unrelated library calls (accepted and rejected inputs) used to disturb any state kept between calls
+pub fn noise() {
+    let deep_open: String = (0..12).map(|i| format!("<n{}>", i)).collect();
+    let deep: String = format!("{}{}", deep_open, (0..12).rev().map(|i| format!("</n{}>", i)).collect::<String>());
+    let inputs: Vec<String> = vec![
+        "<q><w e=\"1\"/><w/><z>t</z></q>".to_string(),
+        deep.clone(),
+        format!("{}</wrong>", deep_open),
+        "<q><w></q>".to_string(),
+        "<q e=\"1\" e=\"2\"/>".to_string(),
+        "<r><Foo/><foo/><p><Foo/></p></r>".to_string(),
+        "".to_string(),
+    ];
+    for _ in 0..6 {
+        for x in &inputs {
+            if let Ok(Ok(e)) = guarded(|| parse(x.as_bytes())) {
+                let _ = guarded(|| render_all(&e));
+            }
+        }
+    }
+}
+
 /// free-running repetition of one history on the library as built (used by the hooks-off helper):
 /// `in_thread` runs on the calling thread, then one run in each of `fresh_threads` new threads
 /// (every new thread gets fresh SipHash keys). Returns the distinct observations
@@ -106,7 +128,13 @@ pub fn repeat_history(docs: &[String], in_thread: usize, fresh_threads: usize) -
             outs.push(o);
         }
     };
-    for _ in 0..in_thread {
+    for i in 0..in_thread {
+        if i == 1 {
+            // between two repetitions: unrelated work on the same thread (other documents, rejected
+            // documents, deep documents, renderings) - the result must not depend on what the
+            // process did before
+            noise();
+        }
         push(observe_history(docs));
     }
     for _ in 0..fresh_threads {
